@@ -102,7 +102,7 @@ Next ==
           M!SetVec(p, "cxx", k, v, o)
     \/ \E k \in VecNames :
           \/ \E v \in VecValues \cup {<<"v0">>} : M!GetVec(p, "cxx", k, [end |-> "ret", tags |-> {}, ret |-> 0, n |-> Len(v), v |-> v])
-          \/ \E o \in {Fat, Err(1)} : M!GetVec(p, "cxx", k, o)
+          \/ \E o \in {Fat, [end |-> "ret", tags |-> {"ERROR"}, ret |-> 1, n |-> 3]} : M!GetVec(p, "cxx", k, o)
     \/ M!DisplayParam(p, "cxx", DispPOutcome(p))
     \/ M!DisplayVec(p, "cxx", DispVOutcome(p))
     \/ \E e \in Evals, x \in Points : \E o \in EvalOutcomes(p, e[1], e[2], <<x>>) : M!Eval(p, "cxx", e[1], e[2], <<x>>, <<>>, o)
